@@ -977,6 +977,10 @@ func (c *fctx) stmts(list []ast.Stmt, k func() string) string {
 				if id.Name == "_" {
 					continue
 				}
+				if r := c.recOf(c.info.Defs[id]); r != nil {
+					out += c.writeWhole(c.info.Defs[id], r, terms[i])
+					continue
+				}
 				n := c.bind(c.info.Defs[id], id.Name)
 				out += fmt.Sprintf("let %s := %s in\n", n, terms[i])
 			}
@@ -1134,6 +1138,40 @@ func (c *fctx) store(lhs ast.Expr, val string) string {
 }
 
 func (c *fctx) assign(s *ast.AssignStmt) string {
+	// x, y := recv.M(args)  where M updates its receiver through the pointer
+	if (s.Tok == token.ASSIGN || s.Tok == token.DEFINE) && len(s.Rhs) == 1 {
+		if call, ok := unparen(s.Rhs[0]).(*ast.CallExpr); ok {
+			if o := c.mutatedReceiver(call); o != nil {
+				sel := call.Fun.(*ast.SelectorExpr)
+				f := c.info.Selections[sel].Obj().(*types.Func)
+				if _, isOpaque := c.opaqueName(f); isOpaque {
+					c.fail(s.Pos(), "result of an opaque method that modifies its receiver")
+				}
+				cu := c.callee(f, call.Pos())
+				r := c.recOf(o)
+				if len(cu.mutated) != 1 || r == nil || c.baseVar(sel.X) == nil {
+					c.fail(s.Pos(), "call of %s, which modifies more than a struct variable receiver", cu.key)
+				}
+				if f.Type().(*types.Signature).Results().Len() != len(s.Lhs) {
+					c.fail(s.Pos(), "assignment count mismatch")
+				}
+				term := c.callTerm(cu, c.readVar(o), call, f)
+				tmp := c.fresh(o.Name())
+				names := []string{tmp}
+				tmps := make([]string, len(s.Lhs))
+				for i := range tmps {
+					tmps[i] = c.fresh("t")
+					names = append(names, tmps[i])
+				}
+				out := fmt.Sprintf("let %s := %s in\n", pattern(names), term)
+				out += c.writeWhole(o, r, tmp)
+				for i, l := range s.Lhs {
+					out += c.store(l, tmps[i])
+				}
+				return out
+			}
+		}
+	}
 	switch s.Tok {
 	case token.ASSIGN, token.DEFINE:
 		if len(s.Lhs) != len(s.Rhs) {
@@ -1642,6 +1680,11 @@ func (c *fctx) isLenCall(call *ast.CallExpr) bool {
 // exprAs translates e as a value of type want (untyped constants take that type).
 func (c *fctx) exprAs(e ast.Expr, want types.Type) string {
 	tv := c.info.Types[e]
+	if tv.IsNil() && want != nil {
+		if t := c.typeOf(want, e.Pos()); t.k == kSlice {
+			return c.zero(t, e.Pos()) // a nil slice is the empty list
+		}
+	}
 	if tv.Value != nil && want != nil {
 		return c.constant(tv.Value, c.typeOf(want, e.Pos()), e.Pos())
 	}
@@ -1779,6 +1822,11 @@ func (c *fctx) expr(e ast.Expr) string {
 		case token.AND:
 			if cl, ok := unparen(x.X).(*ast.CompositeLit); ok {
 				return c.expr(cl)
+			}
+			if o := c.baseVar(x.X); o != nil && c.recOf(o) != nil && c.known(o) {
+				// &x of a struct variable passed to a callee that only reads it (a callee that
+				// writes through a non-receiver pointer is rejected at the call)
+				return c.readVar(o)
 			}
 			c.fail(x.Pos(), "address-of operator")
 		}
